@@ -398,6 +398,10 @@ public:
         } else if (auto *UO = dyn_cast<UnaryOperator>(S)) {
           if (!UO->isIncrementDecrementOp()) continue;
           E["k"] = "store"; E["e"] = expr(UO);
+        } else if (auto *ASE = dyn_cast<ArraySubscriptExpr>(S)) {
+          // position marker: where the element access is evaluated (branch-local
+          // inside ?: and && / ||); carries only the node id, not a second tree
+          E["k"] = "sub"; E["node"] = idOf(ASE);
         } else if (auto *RS = dyn_cast<ReturnStmt>(S)) {
           E["k"] = "ret"; E["e"] = expr(RS->getRetValue());
         } else if (auto *DS = dyn_cast<DeclStmt>(S)) {
